@@ -33,8 +33,12 @@ def rt_of_dump(d):
                          "ca": [codes(ca)] if (single and ca) else []})
             if g and g not in bearing:
                 bearing.append(g)
-    groups = [codes(x) for x in st["groups"]]
-    return {"groups": [g for g in groups if g in bearing], "ents": ents}
+    # key-bearing sections in canonical (byte-wise) order, entries grouped accordingly (Writer!RT)
+    secs = sorted(bearing, key=bytes)
+    ordered = [e for e in ents if not e["g"]]
+    for g in secs:
+        ordered += [e for e in ents if e["g"] == g]
+    return {"groups": secs, "ents": ordered}
 
 
 def rt_script(i, build, d, c):
